@@ -8,12 +8,14 @@
 //! Exit codes: 0 held, 1 violation (with `VIOLATION property=<id> replay=<path>`), 2 harness error.
 
 mod audit;
+mod conc;
 mod corrupt;
 mod crash;
 mod engine;
 mod fault;
 mod gen;
 mod model;
+mod multi;
 mod pool;
 mod props;
 mod rng;
